@@ -118,6 +118,8 @@ theorem C03.good (hG : GuardsCover = true) (hE : ExtOk E) :
     exact good_dict (C03.good hG hE k h.1) (C03.good hG hE vc h.2) (gAll hG (by decide)) (gAll hG (by decide))
   | .seq _ vc, h =>
     good_seq (C03.good hG hE vc (by simpa only [Conv.wf] using h)) (gAll hG (by decide)) (gAll hG (by decide))
+  | .vol vc, h =>
+    good_vol (C03.good hG hE vc (by simpa only [Conv.wf] using h)) (gAll hG (by decide)) (gAll hG (by decide))
   | .cond inner _ _, h =>
     good_cond (C03.good hG hE inner (by simpa only [Conv.wf] using h)) (gAll hG (by decide)) (gAll hG (by decide))
   | .enum _ _ inner, h =>
